@@ -2,6 +2,7 @@
 
 from __future__ import annotations
 
+from fractions import Fraction
 from typing import Any, Iterable, Literal, cast, overload
 
 import pyzx_param as zx
@@ -13,6 +14,24 @@ from tsim.core.parse import parse_parametric_tag, parse_stim_circuit
 from tsim.noise.dem import get_detector_error_model
 from tsim.utils.diagram import render_svg
 from tsim.utils.program_text import shorthand_to_stim, stim_to_shorthand
+
+
+def _format_angle(x: Fraction) -> str:
+    """Render an angle parsed from a decimal literal as an exact positional decimal.
+
+    The tag grammar read by `parse_parametric_tag` has no exponent notation and the
+    parsed values are exact, so neither `repr(float)` (`1e-05`, 17 significant
+    digits) nor rounding is acceptable here.
+    """
+    sign = "-" if x < 0 else ""
+    num, den = (abs(x.numerator), x.denominator)
+    scale = 0
+    while num * 10**scale % den != 0:
+        scale += 1
+    digits = str(num * 10**scale // den).rjust(scale + 1, "0")
+    if scale == 0:
+        return f"{sign}{digits}.0"
+    return f"{sign}{digits[:-scale]}.{digits[-scale:]}"
 
 
 class Circuit:
@@ -611,12 +630,12 @@ class Circuit:
                     gate_name, params = result
                     if gate_name == "U3":
                         # U3(θ, φ, λ)⁻¹ = U3(-θ, -λ, -φ)
-                        theta = float(-params["theta"])
-                        phi = float(-params["lambda"])
-                        lam = float(-params["phi"])
+                        theta = _format_angle(-params["theta"])
+                        phi = _format_angle(-params["lambda"])
+                        lam = _format_angle(-params["phi"])
                         new_tag = f"U3(theta={theta}*pi, phi={phi}*pi, lambda={lam}*pi)"
                     else:
-                        theta = float(-params["theta"])
+                        theta = _format_angle(-params["theta"])
                         new_tag = f"{gate_name}(theta={theta}*pi)"
                     inv_stim.append("I", targets, args, tag=new_tag)
                     continue
